@@ -425,6 +425,22 @@ func execOp(ms []*inst, o op) string {
 }
 
 func runImpl(t *tdesc, cs []ctor, ops []op, dumpEvery int) *histRes {
+	// A hang is one operation (with its dump) that makes no progress for `stall`.  The verdict must not depend on the
+	// machine's load: a history that stalls for 8 s is run once more with a 60 s limit — a real deadlock stalls again
+	// (and is reported), a starved goroutine does not.
+	h := runImplStall(t, cs, ops, dumpEvery, 8*time.Second)
+	if _, known := confirmedHang.Load(t.name); h.abort == "timeout" && !known {
+		h = runImplStall(t, cs, ops, dumpEvery, 60*time.Second)
+		if h.abort == "timeout" {
+			confirmedHang.Store(t.name, true) // this type really hangs: further stalls of it need no second look
+		}
+	}
+	return h
+}
+
+var confirmedHang sync.Map
+
+func runImplStall(t *tdesc, cs []ctor, ops []op, dumpEvery int, stall time.Duration) *histRes {
 	h := &histRes{t: t, c: cs[0], cs: cs, ops: ops}
 	var cur int64 = -1
 	var mu sync.Mutex
@@ -467,7 +483,6 @@ func runImpl(t *tdesc, cs []ctor, ops []op, dumpEvery int) *histRes {
 	}()
 	// watchdog on progress: a hang is one operation (with its dump) that does not finish within
 	// `stall`; a long history on a loaded machine is not a hang
-	const stall = 8 * time.Second
 	last, lastAt := int64(-2), time.Now()
 	tick := time.NewTicker(200 * time.Millisecond)
 	defer tick.Stop()
@@ -1283,7 +1298,7 @@ func probe(t *tdesc, rep *vh.Report) probeOut {
 	c := ctor{def: true}
 	// the enumeration side first
 	{
-		o := vh.GuardTimeout(2*time.Second, func() {
+		o := guardProbe(func() {
 			m := t.mk(c)
 			for _, s := range setup {
 				m.exec(s)
@@ -1303,7 +1318,7 @@ func probe(t *tdesc, rep *vh.Report) probeOut {
 		if i := strings.IndexByte(code, ':'); i >= 0 {
 			o.code, o.mode = code[:i], code[i+1:]
 		}
-		out := vh.GuardTimeout(2*time.Second, func() {
+		out := guardProbe(func() {
 			m := t.mk(c)
 			for _, s := range setup {
 				m.exec(s)
@@ -1321,7 +1336,7 @@ func probe(t *tdesc, rep *vh.Report) probeOut {
 	if t.hasCtor {
 		for _, cp := range []int{0, 1, 2, 3, 101} {
 			cc := ctor{cap: cp, lf: 0.75}
-			out := vh.GuardTimeout(2*time.Second, func() {
+			out := guardProbe(func() {
 				m := t.mk(cc)
 				for _, s := range setup {
 					m.exec(s)
@@ -1658,7 +1673,7 @@ type pendingFail struct {
 // failsWith re-runs a candidate history on the implementation and the driver and says whether the
 // failure with the given key is still there.
 func failsWith(env *vh.Env, t *tdesc, c []ctor, ops []op, key string) (*histRes, *verdict) {
-	h := runImpl(t, c, ops, 1)
+	h := runImplStall(t, c, ops, 1, 8*time.Second)
 	if h.abort != "" {
 		return nil, nil
 	}
@@ -1871,4 +1886,14 @@ func replayFile(env *vh.Env, rep *vh.Report) {
 		}
 	}
 	sort.Slice(rep.Failures, func(i, j int) bool { return rep.Failures[i].Key < rep.Failures[j].Key })
+}
+
+// guardProbe runs a probe (a handful of operations on a 3-element container) under a watchdog that only bounds hangs:
+// 2 s, and if that expires once more with 30 s — a real deadlock expires twice, a starved goroutine on a busy machine does not.
+func guardProbe(f func()) vh.Outcome {
+	o := vh.GuardTimeout(2*time.Second, f)
+	if o.Timeout {
+		o = vh.GuardTimeout(30*time.Second, f)
+	}
+	return o
 }
